@@ -17,6 +17,17 @@
 #include <pistache/common.h>
 #include <pistache/os.h>
 
+// Verification hook: a scheduling point for the cooperative scheduler of the
+// verification harness. Compiled out unless PISTACHE_VERIF is defined.
+#ifndef PISTACHE_VERIF_POINT
+#ifdef PISTACHE_VERIF
+extern "C" void pistache_verif_point(int kind, const void* addr);
+#define PISTACHE_VERIF_POINT(kind, addr) pistache_verif_point((kind), (addr))
+#else
+#define PISTACHE_VERIF_POINT(kind, addr) ((void)0)
+#endif
+#endif
+
 namespace Pistache
 {
 
@@ -220,14 +231,19 @@ namespace Pistache
             Entry* entry = new Entry(std::forward<U>(u));
             // @Note: we're using SC atomics here (exchange will issue a full fence),
             // but I don't think we should bother relaxing them for now
+            PISTACHE_VERIF_POINT(10, this);
             auto* prev = head.exchange(entry);
+            PISTACHE_VERIF_POINT(11, this);
             prev->next = entry;
+            PISTACHE_VERIF_POINT(12, this);
         }
 
         virtual Entry* pop()
         {
             auto* res  = tail;
+            PISTACHE_VERIF_POINT(13, this);
             auto* next = res->next.load(std::memory_order_acquire);
+            PISTACHE_VERIF_POINT(14, this);
             if (next)
             {
                 // Since it's Single-Consumer, the store does not need to be atomic
@@ -301,6 +317,7 @@ namespace Pistache
             if (isBound())
             {
                 uint64_t val = 1;
+                PISTACHE_VERIF_POINT(15, this);
                 TRY(write(event_fd, &val, sizeof val));
             }
         }
@@ -314,6 +331,7 @@ namespace Pistache
                 uint64_t val;
                 for (;;)
                 {
+                    PISTACHE_VERIF_POINT(16, this);
                     ssize_t bytes = read(event_fd, &val, sizeof val);
                     if (bytes == -1)
                     {
